@@ -55,7 +55,7 @@ ClassOf(ev) == IF ev.ev = "pair" THEN "pair|" \o ev.tag ELSE ev.ev \o "|grid=" \
 
 Judge(i) ==
   LET ev == Rec[i]  d == EvDiff(ev)
-  IN IF d = {} THEN TRUE ELSE PrintT(<<"VERDICT", i, ClassOf(ev), {<<"C05", f>> : f \in d}>>)
+  IN IF d = {} THEN TRUE ELSE PrintT(<<"VERDICT", i, ClassOf(ev), {<<IF f = "outcome" THEN "C01" ELSE "C05", f>> : f \in d}>>)
 
 Init == l = 1
 Next == l <= Len(Rec) /\ Judge(l) /\ l' = l + 1
